@@ -177,10 +177,12 @@ func (c *Client) startCall() (hook ClientHook, resolved, released bool, finish f
 		return nil, true, false, func() {}
 	}
 	defer c.mu.Unlock()
+	verifYield(&c.mu)
 	c.mu.Lock()
 	if c.h == nil {
 		return nil, true, c.released, func() {}
 	}
+	verifYield(&c.h.mu)
 	c.h.mu.Lock()
 	c.h = resolveHook(c.h)
 	if c.h == nil {
@@ -190,6 +192,7 @@ func (c *Client) startCall() (hook ClientHook, resolved, released bool, finish f
 	c.h.mu.Unlock()
 	savedHook := c.h
 	return savedHook.ClientHook, savedHook.isResolved(), false, func() {
+		verifYield(&savedHook.mu)
 		savedHook.mu.Lock()
 		savedHook.calls--
 		if savedHook.refs == 0 && savedHook.calls == 0 {
@@ -204,10 +207,12 @@ func (c *Client) peek() (hook *clientHook, released bool, resolved bool) {
 		return nil, false, true
 	}
 	defer c.mu.Unlock()
+	verifYield(&c.mu)
 	c.mu.Lock()
 	if c.h == nil {
 		return nil, c.released, true
 	}
+	verifYield(&c.h.mu)
 	c.h.mu.Lock()
 	c.h = resolveHook(c.h)
 	if c.h == nil {
@@ -235,6 +240,7 @@ func resolveHook(h *clientHook) *clientHook {
 		if h == nil {
 			return nil
 		}
+		verifYield(&h.mu)
 		h.mu.Lock()
 	}
 }
@@ -323,6 +329,7 @@ func (c *Client) AddRef() *Client {
 		return nil
 	}
 	defer c.mu.Unlock()
+	verifYield(&c.mu)
 	c.mu.Lock()
 	if c.released {
 		panic("AddRef on released client")
@@ -330,6 +337,7 @@ func (c *Client) AddRef() *Client {
 	if c.h == nil {
 		return nil
 	}
+	verifYield(&c.h.mu)
 	c.h.mu.Lock()
 	c.h = resolveHook(c.h)
 	if c.h == nil {
@@ -430,12 +438,14 @@ func (c *Client) Release() {
 	if c == nil {
 		return
 	}
+	verifYield(&c.mu)
 	c.mu.Lock()
 	if c.released || c.h == nil {
 		c.mu.Unlock()
 		return
 	}
 	c.released = true
+	verifYield(&c.h.mu)
 	c.h.mu.Lock()
 	c.h = resolveHook(c.h)
 	if c.h == nil {
@@ -527,6 +537,7 @@ func (cp *ClientPromise) Fulfill(c *Client) {
 	// Obtain next client hook.
 	var rh *clientHook
 	if c != nil {
+		verifYield(&c.mu)
 		c.mu.Lock()
 		if c.released {
 			c.mu.Unlock()
@@ -538,6 +549,7 @@ func (cp *ClientPromise) Fulfill(c *Client) {
 	}
 
 	// Mark hook as resolved.
+	verifYield(&cp.h.mu)
 	cp.h.mu.Lock()
 	if cp.h.isResolved() {
 		cp.h.mu.Unlock()
@@ -581,6 +593,7 @@ func (wc *WeakClient) AddRef() (c *Client, ok bool) {
 	if wc.h == nil {
 		return nil, true
 	}
+	verifYield(&wc.h.mu)
 	wc.h.mu.Lock()
 	wc.h = resolveHook(wc.h)
 	if wc.h == nil {
